@@ -15,6 +15,7 @@ type c05Obj struct {
 	kind   string
 	parent int
 	props  [][2]string // name, kind (vN / f / m / x)
+	src    int         // bearv / brov: index of the object used as source
 }
 
 var c05Names = []string{"a", "b", "c", "d", "_p", "_missing"}
@@ -32,7 +33,13 @@ func c05PropSrc(idx int, name, k string) string {
 	return fmt.Sprintf("%s: %s", name, k[1:])
 }
 
+// c05Vars maps object identity to the variable index that holds it (set per run)
+var c05Vars map[object.PanObject]int
+
 func c05Canon(o object.PanObject) string {
+	if idx, ok := c05Vars[o]; ok {
+		return fmt.Sprintf("T%d", idx)
+	}
 	switch v := o.(type) {
 	case *object.PanInt:
 		return itoa(v.Value)
@@ -61,9 +68,7 @@ func c05Canon(o object.PanObject) string {
 		if v == object.BuiltInBaseObj {
 			return "BaseObj"
 		}
-		if p, ok := (*v.Pairs)[object.GetSymHash("tag")]; ok {
-			return "T" + p.Value.Inspect()
-		}
+		return "obj?"
 	}
 	return "val:" + safeInspect(o)
 }
@@ -81,7 +86,38 @@ func genC05(c *Ctx) {
 		// ---- a random history of literals / bear / bro
 		nobj := 1 + c.Rng.Intn(6)
 		objs := []c05Obj{}
-		for i := 0; i < nobj; i++ {
+		family := it%4 == 0
+		if family {
+			// "shared source" family: two parents binding the same names differently, one source object used to bear a
+			// child of each parent (and a sibling); then every name is looked up through every member in sequence
+			mk := func(i int) [][2]string {
+				ps := [][2]string{}
+				for j, name := range []string{"a", "b", "c", "_missing"} {
+					if c.Rng.Intn(3) == 0 {
+						continue
+					}
+					k := c.Rng.Pick([]string{"v", "f", "m"})
+					if name == "_missing" {
+						k = "x"
+					}
+					if k == "v" {
+						k = fmt.Sprintf("v%d", 100*i+j)
+					}
+					ps = append(ps, [2]string{name, k})
+				}
+				return ps
+			}
+			objs = []c05Obj{
+				{kind: "lit", parent: -1, props: mk(0)}, {kind: "lit", parent: -1, props: mk(1)},
+				{kind: "lit", parent: -1, props: [][2]string{{"d", "v200"}}},
+				{kind: "bearv", parent: 0, src: 2}, {kind: "bearv", parent: 1, src: 2}, {kind: "brov", parent: 3, src: 2},
+			}
+			if c.Rng.Bool() {
+				objs = append(objs, c05Obj{kind: "brov", parent: 4, src: 2})
+			}
+			nobj = len(objs)
+		}
+		for i := 0; i < nobj && !family; i++ {
 			o := c05Obj{kind: "lit", parent: -1}
 			if i > 0 {
 				switch c.Rng.Intn(5) {
@@ -95,7 +131,15 @@ func genC05(c *Ctx) {
 					}
 				}
 			}
+			// reuse an earlier object as the source of bear / bro (the same source may be used several times)
+			if i > 1 && o.kind != "lit" && c.Rng.Intn(3) == 0 {
+				o.kind += "v"
+				o.src = c.Rng.Intn(i)
+			}
 			np := c.Rng.Intn(4)
+			if strings.HasSuffix(o.kind, "v") {
+				np = 0
+			}
 			seen := map[string]bool{}
 			for j := 0; j < np; j++ {
 				name := c.Rng.Pick(c05Names)
@@ -124,6 +168,10 @@ func genC05(c *Ctx) {
 				enc = append(enc, p[0]+"="+p[1])
 			}
 			body := "{" + strings.Join(ps, ", ") + "}"
+			e := "-"
+			if len(enc) > 0 {
+				e = strings.Join(enc, ",")
+			}
 			switch o.kind {
 			case "lit":
 				sb.WriteString(fmt.Sprintf("o%d := %s\n", i, body))
@@ -131,10 +179,12 @@ func genC05(c *Ctx) {
 				sb.WriteString(fmt.Sprintf("o%d := o%d.bear(%s)\n", i, o.parent, body))
 			case "bro":
 				sb.WriteString(fmt.Sprintf("o%d := o%d.bro(%s)\n", i, o.parent, body))
-			}
-			e := "-"
-			if len(enc) > 0 {
-				e = strings.Join(enc, ",")
+			case "bearv":
+				sb.WriteString(fmt.Sprintf("o%d := o%d.bear(o%d)\n", i, o.parent, o.src))
+				e = fmt.Sprint(o.src)
+			case "brov":
+				sb.WriteString(fmt.Sprintf("o%d := o%d.bro(o%d)\n", i, o.parent, o.src))
+				e = fmt.Sprint(o.src)
 			}
 			par := "-"
 			if o.parent >= 0 {
@@ -143,10 +193,25 @@ func genC05(c *Ctx) {
 			defs = append(defs, fmt.Sprintf("%s:%s:%s", o.kind, par, e))
 		}
 		prelude := sb.String()
-		// ---- probes
-		for pr := 0; pr < 6; pr++ {
+		// ---- probes: all of them run one after the other in the same scope (a history of lookups)
+		mine := c.Mine()
+		var env *object.Env
+		if mine {
+			env = object.NewEnclosedEnv(c.It.base)
+			c.It.RunIn(env, prelude, "", defaultFuel)
+		}
+		hist := []string{}
+		nprobes := 8
+		if family {
+			nprobes = 24
+		}
+		for pr := 0; pr < nprobes; pr++ {
 			i := c.Rng.Intn(nobj)
 			name := c.Rng.Pick([]string{"a", "b", "c", "d", "_p", "zz", "tag", "_missing", "bear", "proto", "_name", "keys"})
+			if family {
+				i = 2 + c.Rng.Intn(nobj-2)
+				name = c.Rng.Pick([]string{"a", "b", "c", "d", "zz", "tag"})
+			}
 			var probe, src string
 			switch c.Rng.Intn(9) {
 			case 0, 1:
@@ -167,7 +232,7 @@ func genC05(c *Ctx) {
 			default:
 				probe, src = fmt.Sprintf("proto:%d", i), fmt.Sprintf("o%d.proto", i)
 			}
-			if !c.Mine() {
+			if !mine {
 				continue
 			}
 			bi := "-"
@@ -178,15 +243,23 @@ func genC05(c *Ctx) {
 					bi = "BaseObj"
 				}
 			}
-			o := c.It.Run(prelude+src+"\n", "")
+			o := c.It.RunIn(env, src+"\n", "", defaultFuel)
 			impl := o.Kind
 			if o.Kind == "val" || o.Kind == "err" {
+				c05Vars = map[object.PanObject]int{}
+				for k := nobj - 1; k >= 0; k-- {
+					if v, ok := o.Env.Get(object.GetSymHash(fmt.Sprintf("o%d", k))); ok {
+						c05Vars[v] = k
+					}
+				}
 				impl = c05Canon(o.Obj)
 			}
+			thisSrc := src
 			c.Em.Emit(Rec{
 				Case: fmt.Sprintf("C05 %s %s %s", strings.Join(defs, ";"), bi, probe),
-				Impl: impl, Src: prelude + src, NT: nobj > 1, Tags: []string{strings.SplitN(probe, ":", 2)[0], fmt.Sprintf("objs%d", nobj)},
+				Impl: impl, Src: prelude + strings.Join(append(hist, src), "\n"), NT: nobj > 1, Tags: []string{strings.SplitN(probe, ":", 2)[0], fmt.Sprintf("objs%d", nobj)},
 			})
+			hist = append(hist, thisSrc)
 		}
 	}
 }
